@@ -209,11 +209,11 @@ def applyInst (hss : List (Mat K n n)) (ws : List (Vec K n)) : List (Vec K n) :=
 
 /-- C06 "any two bracketings give the same statistics with the same labelling", instrument level:
 applying `M₂` to the outcome branches of `M₁` equals applying the sequential composition
-`mpMpFixed hss₁ hss₂` (elem1 after elem2, HS product `hs1 @ hs2`, layout (elem2 outcome, elem1 outcome))
+`mpMp hss₁ hss₂` (elem1 after elem2, HS product `hs1 @ hs2`, layout (elem2 outcome, elem1 outcome))
 — for all outcome counts and dimensions. -/
 theorem applyInst_comp (h1 h2 : List (Mat K n n)) (ws : List (Vec K n)) :
-    applyInst h1 (applyInst h2 ws) = applyInst (mpMpFixed h1 h2) ws := by
-  simp only [applyInst, mpMpFixed, List.flatMap_assoc, List.map_flatMap, List.flatMap_map, List.map_map]
+    applyInst h1 (applyInst h2 ws) = applyInst (mpMp h1 h2) ws := by
+  simp only [applyInst, mpMp, List.flatMap_assoc, List.map_flatMap, List.flatMap_map, List.map_map]
   congr 1; funext w
   simp only [List.flatMap_def, List.map_map]
   congr 2; funext hs2
@@ -221,9 +221,9 @@ theorem applyInst_comp (h1 h2 : List (Mat K n n)) (ws : List (Vec K n)) :
   simp [mulVec_mulVec]
 
 /-- the corrected `MProcess∘MProcess` is associative as a list (i.e. including the outcome layout). -/
-theorem mpMpFixed_assoc (a b c : List (Mat K n n)) :
-    mpMpFixed (mpMpFixed a b) c = mpMpFixed a (mpMpFixed b c) := by
-  simp only [mpMpFixed, List.flatMap_assoc, List.map_flatMap, List.flatMap_map, List.map_map]
+theorem mpMp_assoc (a b c : List (Mat K n n)) :
+    mpMp (mpMp a b) c = mpMp a (mpMp b c) := by
+  simp only [mpMp, List.flatMap_assoc, List.map_flatMap, List.flatMap_map, List.map_map]
   congr 1; funext z
   simp only [List.flatMap_def, List.map_map]
   congr 2; funext y
@@ -232,16 +232,10 @@ theorem mpMpFixed_assoc (a b c : List (Mat K n n)) :
 
 /-- layout of the corrected composition: index `i₂·|M₁| + i₁` holds `HS¹_{i₁} HS²_{i₂}`, i.e. row-major in
 (elem2 outcome, elem1 outcome) = (earlier, later), matching the shape `shape2 ++ shape1`. -/
-theorem mpMpFixed_layout (h1 h2 : List (Mat K n n)) (i1 i2 : Nat) (a b : Mat K n n)
-    (ha : h1[i1]? = some a) (hb : h2[i2]? = some b) :
-    (mpMpFixed h1 h2)[i2 * h1.length + i1]? = some (a.mul b) :=
-  getElem?_flatMap_map h2 h1 (fun hs2 hs1 => hs1.mul hs2) i2 i1 b a hb ha
-
-/-- the composition as coded stores, at the same index, the product in the opposite order. -/
 theorem mpMp_layout (h1 h2 : List (Mat K n n)) (i1 i2 : Nat) (a b : Mat K n n)
     (ha : h1[i1]? = some a) (hb : h2[i2]? = some b) :
-    (mpMp h1 h2)[i2 * h1.length + i1]? = some (b.mul a) :=
-  getElem?_flatMap_map h2 h1 (fun hs2 hs1 => hs2.mul hs1) i2 i1 b a hb ha
+    (mpMp h1 h2)[i2 * h1.length + i1]? = some (a.mul b) :=
+  getElem?_flatMap_map h2 h1 (fun hs2 hs1 => hs1.mul hs2) i2 i1 b a hb ha
 
 end algebra
 
@@ -414,46 +408,6 @@ theorem gate_chain_bracketing (c : Cfg) (s : Nat) (t : Tree n)
       rw [gateProd_append _ _ (leaves_ne_nil l) (leaves_ne_nil r)]
   exact ⟨_, key t h, fun t' ht' => by rw [key t' (ht' ▸ h), ht']⟩
 
-/-! ### the defects, as proved negation witnesses on concrete rational instances -/
-
-/-- D6 (`_compose_qoperations_MProcess_MProcess`): the product order. The claim "composing two one-outcome
-measurement processes multiplies the HS matrices like gates do (`hs1 @ hs2`)" is false for the coded function. -/
-theorem mpMp_order_fails :
-    ¬ ∀ a b : Mat Rat 2 2, mpMp [a] [b] = [a.mul b] := by
-  intro h
-  have := h #v[#v[0, 1], #v[0, 0]] #v[#v[0, 0], #v[1, 0]]
-  revert this
-  decide +kernel
-
-/-- D6, labelling: the two bracketings of `M_a ∘ M_b ∘ ρ` (2 and 3 outcomes) do not give the same labelled
-statistics: `(M_a∘M_b)∘ρ` reports shape `[2,3]`, `M_a∘(M_b∘ρ)` reports `[3,2]`, with the same flat list of
-probabilities — so e.g. the probability labelled `(0,1)` is 1/3 in one and 1/12 in the other. -/
-theorem compose_assoc_fails :
-    ¬ ∀ (c : Cfg) (a b r : QOp 1),
-        (Tree.node (.node (.leaf a) (.leaf b)) (.leaf r)).eval c
-          = (Tree.node (.leaf a) (.node (.leaf b) (.leaf r))).eval c := by
-  intro h
-  have := h { sd := 1, atol := 0 }
-    (.mprocess 0 [2] eps8 [#v[#v[1/3]], #v[#v[2/3]]])
-    (.mprocess 0 [3] eps8 [#v[#v[1/2]], #v[#v[1/4]], #v[#v[1/4]]])
-    (.state 0 #v[1])
-  have h2 := congrArg distShape this
-  revert h2
-  decide +kernel
-
-/-- D13 (`_compose_qoperations_MProcess_State_for_States`): after an `eps_zero` truncation the surviving post
-state is divided by the *renormalised* probability and is no longer normalised. Weight 2·10⁻⁸, conditional
-probabilities 1/10 and 9/10: the second post state has trace 9/10. -/
-theorem truncated_post_state_fails :
-    ¬ ∀ (hss : List (Mat Rat 1 1)) (rho : Vec Rat 1) (w : Rat),
-        ∀ st ∈ ((forStates 1 eps8 hss rho w).1.zip (forStates 1 eps8 hss rho w).2),
-          st.2 = 0 ∨ TraceOne (1 : Rat) st.1 := by
-  intro h
-  have := h [#v[#v[1/10]], #v[#v[9/10]]] #v[1] (2 / 100000000)
-  revert this
-  unfold TraceOne
-  decide +kernel
-
 end dispatch
 
 /-! ### instruments: all bracketings -/
@@ -468,7 +422,7 @@ inductive ITree (K : Type) (n : Nat)
 /-- evaluation with the corrected sequential composition (`l` after `r`) -/
 def ITree.eval : ITree K n → List (Mat K n n)
   | .leaf h => h
-  | .node l r => mpMpFixed l.eval r.eval
+  | .node l r => mpMp l.eval r.eval
 
 def ITree.leaves : ITree K n → List (List (Mat K n n))
   | .leaf h => [h]
@@ -477,26 +431,26 @@ def ITree.leaves : ITree K n → List (List (Mat K n n))
 /-- right-nested composition of a chain (latest first), the trivial one-outcome identity instrument for `[]` -/
 def foldInst : List (List (Mat K n n)) → List (Mat K n n)
   | [] => [Mat.one]
-  | h :: t => mpMpFixed h (foldInst t)
+  | h :: t => mpMp h (foldInst t)
 
 /-- helper: unit law: composing with the one-outcome identity instrument on the right changes nothing -/
-theorem mpMpFixed_one_right (h : List (Mat K n n)) : mpMpFixed h [Mat.one] = h := by
-  simp [mpMpFixed, mul_one']
+theorem mpMp_one_right (h : List (Mat K n n)) : mpMp h [Mat.one] = h := by
+  simp [mpMp, mul_one']
 
 /-- helper: `1·A = A` for the executable matrix product -/
 theorem one_mul_mat (A : Mat K n n) : (Mat.one : Mat K n n).mul A = A := by
   apply Mat.toM_injective; simp
 
 /-- helper: unit law: composing with the one-outcome identity instrument on the left changes nothing -/
-theorem mpMpFixed_one_left (h : List (Mat K n n)) : mpMpFixed [Mat.one] h = h := by
-  simp [mpMpFixed, one_mul_mat]
+theorem mpMp_one_left (h : List (Mat K n n)) : mpMp [Mat.one] h = h := by
+  simp [mpMp, one_mul_mat]
 
-/-- helper: the right-nested composition of a concatenated chain is the composition of the two right-nested parts (monoid homomorphism; uses `mpMpFixed_assoc`) -/
+/-- helper: the right-nested composition of a concatenated chain is the composition of the two right-nested parts (monoid homomorphism; uses `mpMp_assoc`) -/
 theorem foldInst_append (a b : List (List (Mat K n n))) :
-    foldInst (a ++ b) = mpMpFixed (foldInst a) (foldInst b) := by
+    foldInst (a ++ b) = mpMp (foldInst a) (foldInst b) := by
   induction a with
-  | nil => simp [foldInst, mpMpFixed_one_left]
-  | cons h t ih => simp only [List.cons_append, foldInst, ih, mpMpFixed_assoc]
+  | nil => simp [foldInst, mpMp_one_left]
+  | cons h t ih => simp only [List.cons_append, foldInst, ih, mpMp_assoc]
 
 /-- C06 "any two ways of bracketing the same time-ordered chain give the same outcome statistics with the same
 outcome labelling", for the corrected `MProcess∘MProcess`: every bracketing of a chain of instruments (any length,
@@ -507,18 +461,18 @@ theorem instrument_bracketing (t : ITree K n) : t.eval = foldInst t.leaves ∧
   have key : ∀ t : ITree K n, t.eval = foldInst t.leaves := by
     intro t
     induction t with
-    | leaf h => simp [ITree.eval, ITree.leaves, foldInst, mpMpFixed_one_right]
+    | leaf h => simp [ITree.eval, ITree.leaves, foldInst, mpMp_one_right]
     | node l r ihl ihr => simp only [ITree.eval, ITree.leaves, foldInst_append, ihl, ihr]
   exact ⟨key t, fun t' h => by rw [key t', key t, h]⟩
 
 /-- the branches `Gate∘Gate`, `Gate∘MProcess`, `MProcess∘Gate` of the coded dispatch are instances of the corrected
 sequential composition (a gate is the one-outcome instrument) — only `MProcess∘MProcess` deviates. -/
 theorem coded_branches_eq_fixed (a b : Mat K n n) (hss : List (Mat K n n)) :
-    [a.mul b] = mpMpFixed [a] [b] ∧
-    (hss.map fun hs => a.mul hs) = mpMpFixed [a] hss ∧
-    (hss.map fun hs => hs.mul b) = mpMpFixed hss [b] := by
-  refine ⟨by simp [mpMpFixed], ?_, by simp [mpMpFixed]⟩
-  simp only [mpMpFixed, List.map_cons, List.map_nil]
+    [a.mul b] = mpMp [a] [b] ∧
+    (hss.map fun hs => a.mul hs) = mpMp [a] hss ∧
+    (hss.map fun hs => hs.mul b) = mpMp hss [b] := by
+  refine ⟨by simp [mpMp], ?_, by simp [mpMp]⟩
+  simp only [mpMp, List.map_cons, List.map_nil]
   induction hss with
   | nil => rfl
   | cons h t ih => simp [List.flatMap_cons, ih]
@@ -580,27 +534,6 @@ theorem ensemble_step_partial (sd eps : Rat) (hss : List (Mat Rat n n)) (sp : Li
     rw [mul_assoc, mul_div_cancel₀ _ hne]
 
 end ens
-
-/-! ### D4 -/
-
-/-- D4 (`Povm.generate_mprocess(mode_backaction=1)`, povm.py:738): `zip(eigenvals, eigenvecs)` walks the **rows** of
-the eigenvector matrix although `eigh` returns eigenvectors as columns. "to_povm ∘ generate_mprocess(1) = id" is
-false already for a real projector: `Π = |ψ⟩⟨ψ|`, `ψ = (3/5, 4/5)`, with the orthogonal eigenvector matrix
-`U = [[4/5, 3/5], [-3/5, 4/5]]` (`Π = U·diag(0,1)·Uᵀ` holds) the generated outcome map reads back as
-`[[9/25, -12/25], [-12/25, 16/25]] ≠ Π`. -/
-theorem mode1_to_povm_fails :
-    ¬ ∀ (ev : Vec Rat 2) (U : Mat Rat 2 2), (U.transpose.mul U = Mat.one) →
-        mode1Effect ev.toList U = eighRecon ev U := by
-  intro h
-  have := h #v[0, 1] #v[#v[4/5, 3/5], #v[-3/5, 4/5]] (by decide +kernel)
-  revert this
-  decide +kernel
-
-/-- … while the same data read column-wise (the proposed patch: iterate `eigenvecs.T`) does reproduce `Π`. -/
-theorem mode1_columns_witness :
-    mode1Effect [0, 1] (Mat.transpose (#v[#v[4/5, 3/5], #v[-3/5, 4/5]] : Mat Rat 2 2))
-      = eighRecon #v[0, 1] #v[#v[4/5, 3/5], #v[-3/5, 4/5]] := by
-  decide +kernel
 
 /-! ### non-vacuity: concrete instances of the hypotheses (1 qubit, normalised Pauli basis, `sd² = 2` replaced by
 the rational stand-in `sd = 1` on a 1-dimensional system where needed) -/
